@@ -6,6 +6,9 @@ HERE = os.path.dirname(os.path.dirname(os.path.abspath(__file__)))
 
 # id -> (technique, level text, level note, design ref)
 CLAIMED = {
+ "C14": ("E7 expression trees of the key derivations and a role table (which stream each role sends/receives with) compared with spec terms; must-pass-through for magic/PADLEN with acceptance-set check; exact-read discipline; deadline typestate over go/ssa",
+         "Decides conformance of the obfs2 key derivation, labels, constants and role assignment to the specification; that success requires the magic and PADLEN <= 8192 and accepts all of [0,8192]; that the handshake consumes exactly seed[16], header[8], padding[PADLEN] with io.ReadFull outside loops and sends seed | E(magic|padlen|padding) big-endian; deadlines armed/removed. Byte-exact delivery under segmentation is not decided.",
+         "go/types+go/ssa faithful; checker/spec/obfs2.json transcribes the obfs2 spec", "DESIGN.md section 4, C14"),
  "C17": ("who-may-call rules on read primitives, E7 term for the private buffer, def-use/phi provenance of Target and the argument string with edge-fact sets, relational bounds, deadline typestate, reply-before-failure-return pairing over go/ssa",
          "Decides: all input arrives through ReadByte/io.ReadFull into private buffers (segmentation independence); Target = host of the received address-type arm + big-endian port; argument string = username [+ password unless single NUL], parsed bytewise, stored in Args; all reader indices in bounds; 5 s deadline armed/disarmed; flush with unread input fails; every failure path replies with the proper code. The argument parser's input/output relation (escape automaton) is not decided.",
          "go/types+go/ssa faithful; bufio/io.ReadFull semantics; contract table", "DESIGN.md section 4, C17"),
